@@ -1,5 +1,6 @@
 import KoordVerif.Model.C08
 import KoordVerif.Model.C08Glue
+import KoordVerif.Model.C08Fw
 import KoordVerif.Proofs.C08ExtConc
 import KoordVerif.Generated.C08
 /-
@@ -15,7 +16,9 @@ Tie lemmas for C08: facts re-extracted from /repo's current source on every run.
    statement under the lock in both add-type methods; flag check - Lock - flag check - work - tryCleanup in both
    delete-type methods; a created nodeInfo is stored locked; and tryCleanup runs CompareAndDelete BEFORE
    `deleted = true` (the pre-repair order is the shape `Conc.preRepair`, which loses events:
-   `Conc.pre_repair_counterexample`).
+   `Conc.pre_repair_counterexample`),
+ * Plugin.PreFilter returns the status nil on every path and generateUsageThresholdsFilterProfile is called by Filter only
+   (Model/C08Fw.lean).
 -/
 namespace KoordVerif.C08
 open KoordVerif.Generated
@@ -53,6 +56,20 @@ theorem tie_conc_sections :
 
 theorem tie_cleanup_order :
     C08.cleanupOrder = ["cad", "flag"] ∧ C08.cleanupCond = "n.nodeMetric == nil && len(n.podInfos) == 0" := by decide
+
+/-- a `return` of Plugin.PreFilter the model `preFilter = Success` stands for: status nil, or the one Skip that cannot
+change the verdict of any node (`daemonset_skip_is_safe`; every other Skip can: `skip_safe_only_for_daemonset`) -/
+def preFilterReturnOK (r : String × String) : Bool :=
+  r.1 == "nil" ||
+    (r.1 == "fwktype.NewStatus(fwktype.Skip)" && r.2 == "isDaemonSetPod(pod.OwnerReferences)")
+
+/-- Model/C08Fw.lean `preFilter` answers Success on every path: every `return` of Plugin.PreFilter carries the status
+`nil` (a Skip status makes the framework drop Filter for the whole cycle; tolerated only under the DaemonSet guard, where
+Filter passes on every node anyway); and the node's usage-thresholds annotation is merged in by Filter alone (so nothing
+before Filter can know the thresholds in force on a node). -/
+theorem tie_prefilter_status :
+    C08.preFilterReturns ≠ [] ∧ (C08.preFilterReturns.all preFilterReturnOK) = true ∧
+    C08.customThresholdsCallers = ["Filter"] := by decide
 
 /-- the priority bands of the glue model are the bands of apis/extension/priority.go: the band ends map to the
 class, their outer neighbours to none -/
